@@ -451,7 +451,7 @@ class Body:
         return self.place_root(op[1], depth, accessors)
 
     def place_root(self, place, depth=0, accessors=None):
-        if depth > 24:
+        if depth > 40:
             return "?deep"
         local = place_local(place)
         proj = place_proj(place)
